@@ -54,7 +54,7 @@ def driver_trace():
         yield DRV_LOG
 
 
-SCALAR_COLS = ["id", "a", "b", "c", "s", "u", "d", "flag", "f", "g", "dd"]
+SCALAR_COLS = ["id", "a", "b", "c", "s", "u", "d", "flag", "f", "g", "dd", "m"]
 
 
 def load_scalar(rows):
